@@ -565,16 +565,36 @@ def rule_f_derived_data_follows_settings(ctx, fns, cls="stir::ScatterSimulation"
             wn = [m for h in hit for m in ws[h] if m.i in fcfg.pos]
             if not wn:
                 continue
-            own = {c.i for c in calls_closure(f, pq)}
+            own_calls = calls_closure(f, pq)
+            own = {c.i for c in own_calls}
             via_own = bool(own) and fcfg.must_pass_before_exit(wn, lambda x: x.i in own) is None
+            if not via_own and own_calls:
+                # the setter runs the producer unless one of the producer's (pointer) inputs is still missing - the derived data
+                # are then made when that input arrives (its own setters / producers are obligations of this rule as well)
+                for c in own_calls:
+                    conds = [a.c[0].strip() for a in c.ancestors() if a.k == "IfStmt" and a.c and len(a.c) > 1 and any(x is c for x in a.c[1].walk())]
+                    if conds and all(re.fullmatch(r"\(! is_null_ptr\(this\.(%s)\)\)|\(! stir::is_null_ptr\(this\.(%s)\)\)" % ("|".join(sorted(reads)), "|".join(sorted(reads))), key(cd)) for cd in conds):
+                        via_own = True
             empties = [m for d in derived for m in ws.get(d, []) if m.k == "CXXMemberCallExpr" and (m.callee or "").split("::")[-1] in ("reset", "clear") and not m.call_args()]
             emptied = False
             for m in empties:
                 conds = [a.c[0] for a in m.ancestors() if a.k == "IfStmt" and a.c]
                 if all(key(c.strip()) in pflags for c in conds):
                     emptied = True
-            ok = via_own or always or (guarded_by_empty and emptied)
-            how = "calls %s itself" % P.short if via_own else ("set_up() runs %s on every successful path" % P.short if always else "empties %s, which set_up() then makes again" % "/".join(sorted(derived)))
+            # the setter empties an input X that is itself derived: set_up() makes X again (when empty) with a producer that runs THIS
+            # producer on every path
+            chain = False
+            for h in hit:
+                hw = [m for m in ws[h] if m.k == "CXXMemberCallExpr" and (m.callee or "").split("::")[-1] in ("reset", "clear") and not m.call_args()]
+                if not hw or len(hw) != len(ws[h]):
+                    continue
+                for q1, (d1, _r1, _c1) in producers.items():
+                    if h in d1 and q1 != pq and _on_every_path(by[q1], pq, by, this_calls):
+                        reach1 = {c.i for c in calls_closure(su, q1)}
+                        if any(a.k == "IfStmt" and a.c and ("is_null_ptr(this.%s)" % h) in key(a.c[0]) for c in this_calls(su) if c.i in reach1 for a in c.ancestors()):
+                            chain = True
+            ok = via_own or always or (guarded_by_empty and emptied) or chain
+            how = "calls %s itself" % P.short if via_own else ("set_up() runs %s on every successful path" % P.short if always else ("empties %s; set_up() makes that again and with it %s" % (", ".join(hit), "/".join(sorted(derived))) if chain else "empties %s, which set_up() then makes again" % "/".join(sorted(derived))))
             ctx.ob(RULE, f.qn + "(" + f.sig[:40] + ")", "%s<-%s" % ("/".join(sorted(derived)), ",".join(hit)), ok, wn[0].where(), "%s follows the new %s: %s" % ("/".join(sorted(derived)), ", ".join(hit), how) if ok else "%s is derived from %s (by %s), but after this setter neither the setter nor set_up() derives it again%s: the object keeps what was derived for the previous setting and differs from a freshly configured one" % ("/".join(sorted(derived)), ", ".join(hit), P.short, " (set_up() only does so when it is empty, and the setter does not empty it)" if guarded_by_empty else ""))
             n += 1
     return n
